@@ -85,8 +85,14 @@ def inside_try(ctx: Ctx, rule="R-C18-INSIDE-TRY") -> None:
                   "and the message is neither retried nor dead-lettered", node=c, instance=f"in try: {c.func.attr}")
 
 
-def _loop_env(kind: str | None, is_dep: bool | None, no_default: bool | None = None):
+def _loop_env(kind: str | None, is_dep: bool | None, no_default: bool | None = None, scope=None):
     def fn(text, node):
+        # `dep = get_dependency(...)` followed by `if dep is not None`
+        if isinstance(node, ast.Compare) and isinstance(node.ops[0], ast.Is) and isinstance(node.comparators[0], ast.Constant) and node.comparators[0].value is None \
+                and isinstance(node.left, ast.Name) and scope is not None and is_dep is not None:
+            defs = C.local_defs(scope, node.left.id)
+            if defs and all(isinstance(d, ast.Call) and (dotted(d.func) or "").endswith("get_dependency") for d in defs):
+                return not is_dep
         if isinstance(node, ast.Compare):
             l, r = node.left, node.comparators[0]
             if isinstance(l, ast.NamedExpr):
@@ -95,8 +101,12 @@ def _loop_env(kind: str | None, is_dep: bool | None, no_default: bool | None = N
                 d = (dotted(r) or "").split(".")[-1]
                 if d:
                     return d == kind
-            if isinstance(node.ops[0], ast.In) and _mentions(l, "kind") and kind is not None and isinstance(r, (ast.Tuple, ast.List)):
-                return kind in [(dotted(x) or "").split(".")[-1] for x in r.elts]
+            if isinstance(node.ops[0], ast.In) and _mentions(l, "kind") and kind is not None:
+                if isinstance(r, ast.Name) and scope is not None:
+                    defs = C.local_defs(scope, r.id)
+                    r = defs[0] if len(defs) == 1 else r
+                if isinstance(r, (ast.Tuple, ast.List, ast.Set)):
+                    return kind in [(dotted(x) or "").split(".")[-1] for x in r.elts]
             if isinstance(node.ops[0], ast.Is) and isinstance(r, ast.Constant) and r.value is None and isinstance(l, ast.Call) and (dotted(l.func) or "").endswith("get_dependency"):
                 return None if is_dep is None else (not is_dep)
             if isinstance(node.ops[0], ast.Is) and _mentions(l, "default") and (dotted(r) or "").endswith("Parameter.empty"):
@@ -113,19 +123,19 @@ def declare(ctx: Ctx, rule="R-C18-DECLARE") -> None:
         ctx.require(len(loops) >= 1, f"{f.qualname}: loop over the signature parameters not found")
         it = loops[0]
         starts = [y for y, k in g.succ[it.id] if k == "T"]
-        r = flow.reach_under(g, _loop_env("POSITIONAL_ONLY", True), flow.NORMAL_KINDS + ("raise",), start=starts[0])
+        r = flow.reach_under(g, _loop_env("POSITIONAL_ONLY", True, scope=f), flow.NORMAL_KINDS + ("raise",), start=starts[0])
         raised = any(g.nodes[i].kind == "raise" for i in r)
         completes = it.id in r or g.exit.id in r
         ctx.check(raised and not completes, rule, f, f"dependency in a positional-only parameter rejected in {f.short()}", "raise at declaration",
                   f"{f.short()} accepts a dependency declared in a positional-only parameter (no raise on that path): it would be silently treated as a payload argument "
                   "or fail only at run time", instance=f"positional-only dependency: {f.short()}")
         # a plain positional-only parameter is still accepted
-        r = flow.reach_under(g, _loop_env("POSITIONAL_ONLY", False, False), flow.NORMAL_KINDS + ("raise",), start=starts[0])
+        r = flow.reach_under(g, _loop_env("POSITIONAL_ONLY", False, False, scope=f), flow.NORMAL_KINDS + ("raise",), start=starts[0])
         completes = it.id in r
         ctx.check(completes, rule, f, f"plain positional-only parameter accepted in {f.short()}", "no over-rejection",
                   f"{f.short()} rejects every positional-only parameter", instance=f"positional-only plain: {f.short()}")
         # keyword-capable dependency -> recorded as dependency, not payload
-        r = flow.reach_under(g, _loop_env("POSITIONAL_OR_KEYWORD", True), flow.NORMAL_KINDS + ("raise",), start=starts[0])
+        r = flow.reach_under(g, _loop_env("POSITIONAL_OR_KEYWORD", True, scope=f), flow.NORMAL_KINDS + ("raise",), start=starts[0])
         stores = [g.nodes[i] for i in r if g.nodes[i].kind == "store"]
         dep_st = [s for s in stores if any(k in (s.target or s.label) for k in ("dependency_kwargs", "_subdependencies"))]
         pay_st = [s for s in stores if (s.target or "").startswith(("self.kwargs", "self.args")) or (s.kind == "call" and ".append" in s.label)]
@@ -136,7 +146,7 @@ def declare(ctx: Ctx, rule="R-C18-DECLARE") -> None:
     g = ctx.cfg(f)
     it = [n for n in g.nodes if n.kind == "iter" and "parameters" in n.label][0]
     starts = [y for y, k in g.succ[it.id] if k == "T"]
-    r = flow.reach_under(g, _loop_env("POSITIONAL_OR_KEYWORD", False, True), flow.NORMAL_KINDS + ("raise",), start=starts[0])
+    r = flow.reach_under(g, _loop_env("POSITIONAL_OR_KEYWORD", False, True, scope=f), flow.NORMAL_KINDS + ("raise",), start=starts[0])
     raised = any(g.nodes[i].kind == "raise" for i in r)
     completes = it.id in r
     ctx.check(raised and not completes, rule, f, "provider parameter without default and without dependency rejected", "raise at declaration",
@@ -208,9 +218,12 @@ def chain(ctx: Ctx, f: FuncInfo, provider: str, rule="R-C18-FLOW") -> None:
     res_names = {t.id for n in ast.walk(f.node) if isinstance(n, ast.Assign) and isinstance(n.value, ast.Await) and n.value.value is ga for t in n.targets if isinstance(t, ast.Name)}
     ctx.check(bool(res_names), rule, f, f"gather awaited in {tag}", "awaited", f"{tag}: the gather is not awaited into a local", instance=f"{tag}: gather awaited")
     zips = [c for c in ast.walk(f.node) if isinstance(c, ast.Call) and dotted(c.func) == "dict" and c.args and isinstance(c.args[0], ast.Call) and dotted(c.args[0].func) == "zip"]
+    # equivalent: {k: v for k, v in zip(names, resolved)}
+    zips += [c for c in ast.walk(f.node) if isinstance(c, ast.DictComp) and len(c.generators) == 1 and isinstance(c.generators[0].iter, ast.Call) and dotted(c.generators[0].iter.func) == "zip"
+             and isinstance(c.generators[0].target, ast.Tuple) and [dotted(e) for e in c.generators[0].target.elts] == [dotted(c.key), dotted(c.value)] and not c.generators[0].ifs]
     if not ctx.check(len(zips) == 1, rule, f, f"dict(zip(names, resolved)) in {tag}", "found", f"{tag}: dict(zip(...)) of names and resolved values not found", instance=f"{tag}: zip"):
         return
-    z = zips[0].args[0]
+    z = zips[0].args[0] if isinstance(zips[0], ast.Call) else zips[0].generators[0].iter
     keys_src = None
     if len(z.args) == 2:
         for d in C.expand_locals(f, z.args[0], depth=2):
